@@ -625,10 +625,10 @@ class type_base(object):
         if not is_expr_mode():
             curr = int(self.get_model().get_val())
             if isinstance(rng, slice):
-                msk = ((1 << (rng.start-rng.stop))-1) << rng.stop
-                curr = (curr & msk) | (val << rng.stop & msk)
+                msk = ((1 << (rng.start-rng.stop+1))-1) << rng.stop
+                curr = (curr & ~msk) | ((val << rng.stop) & msk)
             else:
-                curr = (curr & ~(val << rng)) | (val << rng)
+                curr = (curr & ~(1 << rng)) | ((val & 1) << rng)
             self.get_model().set_val(curr)
         else:
             raise Exception("Cannot assign to a part-select within a constraint")
